@@ -67,6 +67,8 @@ def make_case(tier, seed, index):
             steps.append({"op": "close"})
         elif x < 0.35:
             steps.append({"op": "newloop"})
+            if rnd.random() < 0.3:
+                steps.append({"op": "close"})   # the first thing done from the new loop is close()
         elif x < 0.5:
             steps.append({"op": "sleep", "d": rnd.choice([tau / 2, tau, 3 * tau, 10.0])})
         faults = []
@@ -88,8 +90,11 @@ def make_case(tier, seed, index):
     elif x < 0.5:
         steps.append({"op": "sleep", "d": rnd.choice([tau / 2, tau, 3 * tau, 10.0])})
     steps.append({"op": "req", "faults": [], "connects": [], "final": True})
-    if rnd.random() < 0.3:
+    y = rnd.random()
+    if y < 0.3:
         steps.append({"op": "close"})
+    elif y < 0.45:
+        steps += [{"op": "newloop"}, {"op": "close"}]   # close() from a later asyncio.run
     return {"transport": tr, "keep_alive": ka, "timeout": tau, "retries": r, "steps": steps}
 
 
@@ -114,6 +119,7 @@ def run_case(case):
     net = world.net
     violations = []
     log = []  # (step index, kind, info)
+    dead = []  # (step index, transport id) of transports kept after close() although their loop is closed
 
     def open_count():
         return len(net.open_transports())
@@ -134,6 +140,13 @@ def run_case(case):
             elif s["op"] == "close":
                 await proto.close()
                 log.append((i, "close", open_count()))
+                # after close() the object must not hold on to a transport whose event loop is closed: such a
+                # transport's close() cannot complete (call_soon raises), its socket is released only when the last
+                # reference goes away (private attribute, looked up defensively; silent if it is renamed)
+                held = getattr(proto, "_transport", None)
+                if held is not None and getattr(held, "_loop", None) is not None and held._loop.is_closed() \
+                        and not getattr(held, "lost_called", True):
+                    dead.append((i, held.tid))
             else:
                 if s.get("final") or case.get("loops") == "alt":
                     # 'once faults stop': let every network event still in flight (late answers, resets, ICMP
@@ -178,6 +191,10 @@ def run_case(case):
             pass
     if status != "ok":
         violations.append(viol(f"C10:hang:{tr}", f"history did not terminate: {status}"))
+    if dead:
+        violations.append(viol(f"C10:open-after-close:{tr}:dead-transport-kept",
+                               f"after close() at step {dead[0][0]} the object still holds transport #{dead[0][1]}, which "
+                               f"belongs to a closed event loop and cannot finish closing: its socket stays open"))
 
     # (a) at most one open transport at any time: replay open/close events from the world log
     open_now = set()
